@@ -238,3 +238,21 @@ Theorem wmts_featureinfo_denied_is_403 :
     r_kind r <> A_unauth -> permitted Ft_fi r n = false ->
     wmts_featureinfo n infos (Some r) pt_in = FI_403.
 Proof. exact wmts_fi_denied. Qed.
+
+(* WMS GetCapabilities with a 'partial' result (FilteredRootLayer; not a clause of the property - no image, feature
+   info or upstream request is involved - but the same callback result): every layer named in the document has a
+   truthy 'map' entry, and its own and the global limited_to intersect its extent.  Missing or false => not listed;
+   a sub layer is only listed below a listed parent. *)
+Theorem capabilities_list_only_permitted_layers :
+  forall tree r isect names n,
+    wms_capabilities tree (Some r) isect = CAP_ok names -> r_kind r = A_partial -> In n names ->
+    exists p, assoc n (r_layers r) = Some p /\ truthy_f (p_map p) = true /\
+              (forall g, p_lim p = Some g -> isect g n = true) /\
+              (forall g, r_lim r = Some g -> isect g n = true).
+Proof. exact capabilities_listed_facts. Qed.
+
+Theorem capabilities_unauthorized_is_403 :
+  forall tree r isect,
+    r_kind r <> A_full -> r_kind r <> A_partial -> r_kind r <> A_unauth ->
+    wms_capabilities tree (Some r) isect = CAP_403.
+Proof. exact capabilities_unauthorized. Qed.
